@@ -252,10 +252,24 @@ for cls, params in (('MulAdd', ['input', 'mul', 'add']),):
              fields={cls: INIT_FIELDS},
              **dict(common, hooks=dict(HOOKS, getattr=h_getattr_init)))
 
+def unop_setattr(eng, obj, name, v, st, node):
+    if obj.k == 'ref' and name == 'operator':
+        st.trace.append(('operator-set', v))            # through the property setter (name -> special index: C01 table)
+        return [('next', st)]
+    return None
+
+
+def unop_wired(c):
+    ops = [e for e in c.trace if e[0] == 'operator-set']
+    ins = c.post.self.v('_inputs')
+    ok = (len(ops) == 1 and ops[0][1] is c._params['operator']
+          and ins.k == 'tuple' and len(ins.items) == 1 and ins.items[0] is c._params['input'])
+    return z3.BoolVal(bool(ok))
+
+
 contract(F, 'UnaryOpUGen._init_ugen', props=('C01',),
          params={'self': 'self', 'operator': 'obj', 'input': OPND},
-         ensures=[('rate-is-the-rate-of-its-input', init_rate_post(['input']))],
+         ensures=[('rate-is-the-rate-of-its-input', init_rate_post(['input'])),
+                  ('the-given-operator-applied-to-exactly-the-given-input', unop_wired)],
          fields={'UnaryOpUGen': INIT_FIELDS},
-         **dict(common, hooks=dict(HOOKS, getattr=h_getattr_init, setattr=(
-             lambda eng, obj, name, v, st, node: (
-                 [('next', st)] if (obj.k == 'ref' and name == 'operator') else None)))))
+         **dict(common, hooks=dict(HOOKS, getattr=h_getattr_init, setattr=unop_setattr)))
